@@ -123,14 +123,14 @@ PROPS = {
                 assumptions=["governance parameters are constant along a history", "shield-claim proposals (certifier round, then the certified identities' stake round) are exercised by the shield engine; their tally is restated independently by the monitor stake_round_rule with the certified identities' bonded stake as the quorum base"]),
     "C13": dict(GOV, lean=["Shentu.Props.C13", "Shentu.Props.C13H"]),
     "C15": {
-        "lean": ["Shentu.Props.C15", "Shentu.Props.C15H"],
+        "lean": ["Shentu.Props.C15", "Shentu.Props.C15H", "Shentu.Props.C14F"],
         "engines": [chain("oracle", 160, 1600), EXPORT],
         "trusted": SDK_TRUST,
         "assumptions": ["block heights are consecutive", "the oracle parameters are constant along a history",
                         "bounty_bounded is proved at the level of the share arithmetic and the equality of the two formula copies; the threading of the shares through the operator records is covered by the correspondence check"],
     },
     "C14": {
-        "lean": ["Shentu.Props.C14"],
+        "lean": ["Shentu.Props.C14", "Shentu.Props.C14F"],
         "engines": [chain("oracle", 160, 1600), EXPORT],
         "trusted": SDK_TRUST,
         "assumptions": ["block heights are consecutive", "the oracle parameters are constant along a history"],
